@@ -67,7 +67,7 @@ def _snapshot_shared_containers():
       if k.startswith('__'):
         continue
       if isinstance(v, kinds):
-        _SHARED.append((v, copy.copy(v)))
+        _SHARED.append((v, copy.copy(v), c, k))
       elif isinstance(v, type):
         scan_class(v)
 
@@ -78,14 +78,22 @@ def _snapshot_shared_containers():
       if k.startswith('__'):
         continue
       if isinstance(v, kinds):
-        _SHARED.append((v, copy.copy(v)))
+        _SHARED.append((v, copy.copy(v), mod, k))
       elif isinstance(v, type) and v.__module__ == name:
         scan_class(v)
 
 
 def _restore_shared_containers():
   import scales.varz as varz
-  for obj, saved in _SHARED:
+  for obj, saved, owner, key in _SHARED:
+    if isinstance(saved, set):
+      # a set that is equal again still remembers where its last pop() stopped (CPython's "finger"), which decides
+      # what the next pop() returns: bind a brand-new set
+      cur = owner.__dict__.get(key)
+      if isinstance(cur, set):
+        cur.clear()
+      setattr(owner, key, set(saved))
+      continue
     if obj == saved:
       continue
     if obj is varz.VarzReceiver.VARZ_METRICS:
